@@ -3,6 +3,7 @@ package props
 import (
 	"encoding/json"
 	"fmt"
+	"runtime"
 	"strings"
 	"time"
 
@@ -95,7 +96,7 @@ type c09After struct {
 func c09AfterMenu(thorough bool) []c09After {
 	big, mid := 1<<20, 1<<18
 	if thorough {
-		big, mid = 1<<22, 1<<20
+		big, mid = 1<<21, 1<<19
 	}
 	num := func(i int) any { return json.Number(fmt.Sprint((i * 7919) % 100003)) }
 	str := func(i int) any { return fmt.Sprintf("s%06d", (i*7919)%100003) }
@@ -146,6 +147,7 @@ func c09AfterPoint(r *core.Run, m c09After) *core.Violation {
 	o := core.Search(m.Expr, large)
 	r.Eval(o)
 	large = nil
+	runtime.GC() // the collection of the large document must not overlap the second measurement
 	after := c09MinTime(m.Expr, small, 31)
 	r.Add("transitions", 63)
 	if after > 50*before+200*time.Microsecond {
